@@ -1,13 +1,32 @@
 PROP = {
-    "claim": "Proof (partial, see assumptions): theorems about the model of Core::handle_interrupt (identity when nothing is pending, wake-only "
-             "when the master enable is off, equality with the dispatch spec as it lands) + EXHAUSTIVE three-way correspondence "
-             "(implementation / model / spec) over all 32x32 IF/IE values x 3 master-enable states x 3 run states x 40 boundary stack "
-             "pointers (pushes landing on IE, IF, ROM/MBC registers, every region boundary, SP wrap).",
-    "note": "Trusted: Lean kernel, harness/driver, the Bus model of C10 behind the pushes. Spec reads IF/IE and pushes through the bus.",
-    "technique": "Lean 4 theorems over a hand-written model of handle_interrupt + exhaustive differential against the dispatch spec",
+    "claim": "Proof: over the Lean model of Core::handle_interrupt (two byte pushes through the bus model, IF&IE re-sampled after "
+             "the high byte) and for every well-formed core state (IF, IE five-bit - an invariant of every bus write, "
+             "write_keeps_wf; SP, PC 16-bit; bus buffers as with_rom_file sizes them; any cartridge, any register/memory "
+             "contents): (dispatch_spec) the model EQUALS the dispatch spec written from the property text (IF/IE read at "
+             "0xFF0F/0xFFFF and the return address pushed through the bus); and, stated outright about the model: (total) no "
+             "panic, well-formedness kept; (wake_iff) the run state becomes Run iff it was Run or IF&IE != 0, whatever the master "
+             "enable; (dispatch_iff_ime) with a request pending a dispatch (IME cleared, SP-2, +5 cycles) happens iff "
+             "IME = Enabled, otherwise registers, bus, IME are untouched; (high_byte_first) the bus sees PC/256 at SP-1 first, "
+             "then PC%256 at SP-2; (priority_order) the vector is 0x40 + 8i for the lowest set bit i of IF&IE sampled after the "
+             "high-byte push; (only_that_bit_cleared) the final bus is the bus after the two pushes with exactly bit i removed from "
+             "IF; (five_cycles) +5 machine cycles iff dispatch, else 0; (cancellation) if the high-byte push leaves nothing "
+             "pending, PC = 0x0000 and the bus is exactly what the pushes left (no IF bit cleared); (sp_mod) SP' = (SP-2) mod "
+             "65536; (otherwise_unchanged) without pending-and-enabled nothing but the run state changes. Concrete evaluated "
+             "cases: SP=0x0000 (push lands on IE, cancels), SP=0xFF10 (lands on IF, cancels), SP=0xFF11 (low byte overwrites IF "
+             "before the clear). The model is tied to emulator.rs by the EXHAUSTIVE three-way c07 stream (implementation / model "
+             "/ spec): all 32x32 IF/IE values x 3 master-enable states x 3 run states x 40 boundary stack pointers x 4 PCs.",
+    "note": "Trusted: Lean kernel, harness/driver, hand-written models (Core.handleInterrupt, Bus of C10) validated by the "
+            "differential stream only. The spec reads IF/IE and pushes through the same bus model (Bus.read/Bus.write): what a "
+            "push does when it lands on IE, IF, a cartridge register or a region boundary is C10/C11/C12's subject, here it is "
+            "whatever the bus does, identically on both sides.",
+    "technique": "Lean 4 proofs (model = spec by case analysis on the three outcomes, bus lemmas of C10, kernel enumeration of the "
+                 "5-bit facts) + exhaustive differential against the dispatch spec on the real Core::handle_interrupt",
     "streams": [{"name": "c07", "shards": {"quick": 4, "thorough": 16}}],
-    "modules": ["GbVerif.Model.Core", "GbVerif.Spec.Interrupt"],
+    "modules": ["GbVerif.Model.Core", "GbVerif.Spec.Interrupt", "GbVerif.Proofs.CoreIrq", "GbVerif.Proofs.BusBasic",
+                "GbVerif.Proofs.BusWf", "GbVerif.Proofs.BusFrame", "GbVerif.Proofs.BusIo"],
     "exhaustive": True,
     "rule": "all 1024 IF/IE pairs x 3 IME x 3 run states x 40 stack pointers (thorough 400) x 4 PC values; non-trivial = a dispatch or a wake-up happened",
-    "assumptions": ["full `handleInterrupt = InterruptSpec.dispatch` theorem pending (proof agent); until then carried by the exhaustive correspondence"],
+    "assumptions": ["IF and IE hold five bits, SP and PC 16 bits, buffer sizes as MemoryAreas::with_rom_file makes them (WFc; "
+                    "preserved by every bus write and by handle_interrupt itself)",
+                    "registers.ip/sp are u32 fields holding 16-bit values (kept by the interpreter, C06; repo d5e7cc8 for SP here)"],
 }
